@@ -922,6 +922,9 @@ func (st *State) bitop(op, a, b string, bits uint, signed bool, what string) str
 			}
 		}
 	}
+	if r, ok := st.singleBitOp(op, a, b, bits, signed); ok {
+		return r
+	}
 	var t string
 	if signed {
 		st.fc.noteAssumption("bitwise " + op + " on signed non-constant operands is an uninterpreted function constrained by arithmetic facts in " + what)
@@ -1148,4 +1151,123 @@ func isRuneSlice(t types.Type) bool {
 	}
 	b, ok := sl.Elem().Underlying().(*types.Basic)
 	return ok && b.Kind() == types.Int32
+}
+
+var reSingle = []*regexp.Regexp{
+	regexp.MustCompile(`^\(mod \(g_pow2 (.+)\) 18446744073709551616\)$`),
+	regexp.MustCompile(`^\(g_pow2 (.+)\)$`),
+	regexp.MustCompile(`^\(- \(mod \(\+ \(g_pow2 (.+)\) 9223372036854775808\) 18446744073709551616\) 9223372036854775808\)$`),
+}
+var reCompl = regexp.MustCompile(`^\(- 18446744073709551615 (.+)\)$`)
+
+// singleBit recognises terms denoting 1<<k (possibly complemented) through SSA definitions.
+func (st *State) singleBit(t string) (k string, compl bool, ok bool) {
+	e := st.fc.expandDefs(t, 0)
+	if m := reCompl.FindStringSubmatch(e); m != nil {
+		e = m[1]
+		compl = true
+	}
+	for _, re := range reSingle {
+		if m := re.FindStringSubmatch(e); m != nil && balanced(m[1]) {
+			return m[1], compl, true
+		}
+	}
+	return "", false, false
+}
+
+func balanced(s string) bool {
+	d := 0
+	for _, c := range s {
+		if c == '(' {
+			d++
+		} else if c == ')' {
+			d--
+			if d < 0 {
+				return false
+			}
+		}
+	}
+	return d == 0
+}
+
+// singleBitOp gives exact integer semantics to w&(1<<k), w|(1<<k), w&^(1<<k), w&^(1<<k) written as w & ^(1<<k),
+// and to word-wise and / or / and-not with their per-bit characterisation. The per-bit facts are the integer
+// images of 64-bit vector lemmas that are proved separately (lemmas/*.smt2, checked at setup).
+func (st *State) singleBitOp(op, a, b string, bits uint, signed bool) (string, bool) {
+	if strings.Contains(a+b, "g_q") {
+		return "", false
+	}
+	V := st.fc.V
+	w, other := a, b
+	k, compl, ok := st.singleBit(b)
+	if !ok && (op == "&" || op == "|") {
+		if k2, c2, ok2 := st.singleBit(a); ok2 {
+			k, compl, ok, w, other = k2, c2, true, b, a
+		}
+	}
+	_ = other
+	V.needPow2 = true
+	V.bitPrelude()
+	if ok {
+		limit := "64"
+		if signed {
+			limit = "63"
+		}
+		inr := sAnd(sCmp("<=", "0", k), sCmp("<", k, limit))
+		p := sApp("g_pow2", k)
+		st.facts = st.facts.push(sImp(inr, sCmp(">=", p, "1")))
+		bitSet := sEq(sApp("g_bit", w, k), "1")
+		var r, newbit string
+		switch {
+		case op == "&" && !compl:
+			return st.define("t", "Int", sIte(sAnd(inr, bitSet), p, "0")), true
+		case op == "|" && !compl:
+			r, newbit = sIte(sAnd(inr, sNot(bitSet)), sAdd(w, p), w), "1"
+		case (op == "&" && compl) || (op == "&^" && !compl):
+			r, newbit = sIte(sAnd(inr, bitSet), sSub(w, p), w), "0"
+		default:
+			return "", false
+		}
+		rt := st.define("t", "Int", r)
+		// per-bit and popcount facts for the updated word
+		st.facts = st.facts.push(sImp(inr, fmt.Sprintf("(forall ((g_j Int)) (! (=> (and (<= 0 g_j) (< g_j 64)) (= (g_bit %s g_j) (ite (= g_j %s) %s (g_bit %s g_j)))) :pattern ((g_bit %s g_j))))", rt, k, newbit, w, rt)))
+		if newbit == "1" {
+			st.facts = st.facts.push(sImp(inr, sEq(sApp("g_pc64", rt), sIte(bitSet, sApp("g_pc64", w), sAdd(sApp("g_pc64", w), "1")))))
+		} else {
+			st.facts = st.facts.push(sImp(inr, sEq(sApp("g_pc64", rt), sIte(bitSet, sSub(sApp("g_pc64", w), "1"), sApp("g_pc64", w)))))
+		}
+		st.fc.noteAssumption("single-bit updates of 64-bit words: per-bit and popcount facts are the integer images of bit-vector lemmas proved in lemmas/bits.smt2")
+		return rt, true
+	}
+	if bits != 64 || signed {
+		return "", false
+	}
+	// word-wise operations on two non-constant words
+	var fn, comb string
+	x, y := a, b
+	switch op {
+	case "&":
+		e := st.fc.expandDefs(b, 0)
+		if m := reCompl.FindStringSubmatch(e); m != nil && balanced(m[1]) {
+			fn, y = "g_andnotW", m[1]
+			comb = "(ite (= (g_bit %[2]s g_j) 1) 0 (g_bit %[1]s g_j))"
+		} else {
+			fn = "g_andW"
+			comb = "(ite (= (g_bit %[2]s g_j) 1) (g_bit %[1]s g_j) 0)"
+		}
+	case "|":
+		fn = "g_orW"
+		comb = "(ite (= (g_bit %[2]s g_j) 1) 1 (g_bit %[1]s g_j))"
+	case "&^":
+		fn = "g_andnotW"
+		comb = "(ite (= (g_bit %[2]s g_j) 1) 0 (g_bit %[1]s g_j))"
+	default:
+		return "", false
+	}
+	V.addPrelude(fn, fmt.Sprintf("(declare-fun %s (Int Int) Int)", fn))
+	rt := st.define("t", "Int", sApp(fn, x, y))
+	st.facts = st.facts.push(sAnd(sCmp("<=", "0", rt), sCmp("<=", rt, "18446744073709551615")))
+	st.facts = st.facts.push(fmt.Sprintf("(forall ((g_j Int)) (! (=> (and (<= 0 g_j) (< g_j 64)) (= (g_bit %s g_j) %s)) :pattern ((g_bit %s g_j))))", rt, fmt.Sprintf(comb, x, y), rt))
+	st.fc.noteAssumption("word-wise and/or/and-not on 64-bit words: per-bit characterisation is the integer image of bit-vector lemmas proved in lemmas/bits.smt2")
+	return rt, true
 }
